@@ -156,6 +156,21 @@ def stream_prep(ctx, cases):
         if real != rep:
             ctx.disagree('prep', case, rep, real)
         monitor_class(ctx, case, info)
+        # the URL as it sits in the URL table is the CANONICAL string; the processor builds the request from that string.
+        # STRING comparison: the target on the wire is the path?query text of the table URL (not one recomputed by parsing it again)
+        try:
+            canon = info.url
+            k2, val2, _r2 = rc.real_prep(canon, 'GET', 'HTTP/1.1', [], full)
+            if k2 == 'ok':
+                tgt = val2.split(b' ')[1].decode('latin-1')
+                rest = canon.partition('://')[2]
+                cut = min([i for i in (rest.find('/'), rest.find('?')) if i >= 0] or [len(rest)])
+                want_t = canon if full else (rest[cut:] or '/')
+                if tgt != want_t:
+                    ctx.fail('target-mismatch', 'URLInfo.parse-table-URL', dict(case, table_url=canon),
+                             'the table URL %r is fetched with request target %r: not the path and query of the URL being fetched' % (canon, tgt))
+        except Exception as e:
+            ctx.fail('url-char-class', 'URLInfo.parse', case, 'the canonical URL cannot be turned into a request: %s' % type(e).__name__)
         if k == 'ok' and values_clean(pairs) and method.isalpha() and method.isascii() and version.startswith('HTTP/'):
             check_head(ctx, case, val, info, full, pairs, 'Request.to_bytes')
     if meta:
